@@ -27,7 +27,7 @@ pub fn line_of(rng: &mut Rng, class: &str) -> Vec<u8> {
                 b"c (+)", b"x (esc)", b"y (re)", b"z (gl*)", b" (glob)", b"foo (glob) (glob)",
             ],
         ),
-        "fence" => pick(rng, &[b"```", b"````", b"```scrut", b"`````x", b"``", b"`", b"```` ```scrut"]),
+        "fence" => pick(rng, &[b"```", b"````", b"```scrut", b"`````x", b"``", b"`", b"```` ```scrut", b"  ```sh", b" ```", b"   ````", b"    ```"]),
         "hash" => pick(rng, &[b"# comment", b"#", b"## h2", b"#!shebang"]),
         "ctrl" => pick(rng, &[b"a\x00b", b"\x1b[1mX\x1b[0m", b"\x7f", b"\xc2\x85", b"\x01", b"a\tb", b"\x0c", b"bell\x07"]),
         "invalid-utf8" => pick(rng, &[b"\xff\xfe", b"ab\xc3", b"\x80", b"x\xe2\x82", b"\xf8\x88\x80\x80\x80"]),
